@@ -650,6 +650,8 @@ class Run:
         fast = g.fast
         fast._verif_install(self.sim)
         fast._verif_reset(plan.get("prng_seed", 1) & 0xFFFFFFFFFFFFFFFF, plan.get("poison", 0xA5))
+        if plan.get("rx_tail") == "keep" and hasattr(fast, "_verif_set_rx_tail"):
+            fast._verif_set_rx_tail(True)  # like a real kernel: stale octets stay beyond the datagram
         if plan.get("forced_random"):
             fast._verif_force_random([x & 0xFFFFFFFFFFFFFFFF for x in plan["forced_random"]])
         g.policer.perf_counter_ns = self.sim.perf_counter_ns
